@@ -17,10 +17,11 @@ CONSTANTS TPS,         \* ticks per second
           MaxTime,     \* latest absolute time (ticks)
           Periods,     \* possible time_period values (ticks)
           OpsVals,     \* possible total_ops values
-          RunnerTput   \* set of possible runner-provided throughputs; 0 = None
+          RunnerTput   \* set of possible runner-provided throughputs; NoTput (-1) = None; 0 is a legal value
 
 Warmup == 0
 Normal == 1
+NoTput == -1
 
 VARIABLES stats,      \* TaskStats of the task ([exists |-> FALSE] before the first call)
           pending,    \* samples received by the driver but not yet given to calculate()
@@ -100,7 +101,7 @@ PassThrough(ts0, batch) ==
 
 Calculate(ts0, batch, resetUnprocessed) ==
     LET cur == StableSort(batch \o ts0.unproc)
-    IN IF cur[1].tput = 0 THEN CalcTask(ts0, batch, resetUnprocessed) ELSE PassThrough(ts0, batch)
+    IN IF cur[1].tput = NoTput THEN CalcTask(ts0, batch, resetUnprocessed) ELSE PassThrough(ts0, batch)
 
 -----------------------------------------------------------------------------
 CONSTANT ResetUnprocessed
@@ -119,10 +120,10 @@ Init == /\ stats = NoStats
 Arrive(c, t, per, ops, ty, tp) ==
     /\ hist.fedN + Len(pending) < MaxSamples
     /\ t > hist.clientT[c] /\ ty >= hist.clientTy[c]
-    /\ (hist.mode = -1 \/ (hist.mode = 0) = (tp = 0))
+    /\ (hist.mode = -1 \/ (hist.mode = 0) = (tp = NoTput))
     /\ LET s == [id |-> hist.fedN + Len(pending) + 1, c |-> c, abs |-> t, per |-> per, ops |-> ops, ty |-> ty, tput |-> tp]
        IN pending' = Append(pending, s)
-    /\ hist' = [hist EXCEPT !.clientT[c] = t, !.clientTy[c] = ty, !.mode = IF tp = 0 THEN 0 ELSE 1]
+    /\ hist' = [hist EXCEPT !.clientT[c] = t, !.clientTy[c] = ty, !.mode = IF tp = NoTput THEN 0 ELSE 1]
     /\ UNCHANGED <<stats, lastOut>>
     /\ act' = [name |-> "Arrive"]
 
@@ -202,7 +203,7 @@ TypeMonotoneInCall ==
 
 PassThroughUnchanged ==
     hist.mode = 1 => /\ stats = NoStats
-                     /\ \A i \in 1..Len(lastOut) : lastOut[i].den = 1 /\ lastOut[i].num \in RunnerTput \ {0}
+                     /\ \A i \in 1..Len(lastOut) : lastOut[i].den = 1 /\ lastOut[i].num \in RunnerTput \ {NoTput}
 
 (* action property: sample types of successive values never return to warm-up *)
 TypeMonotone == [][Calculated' => hist'.lastTy >= hist.lastTy]_vars
